@@ -11,6 +11,8 @@ import (
 	"unicode/utf8"
 )
 
+const maxPermutedMap = 4 // larger maps are ranged in canonical order (stated bound)
+
 const maxAlloc = 1 << 24 // elements; larger allocations are treated like Go's makeslice panic / OOM
 
 func rtErr(e *explorer, msg string) targetPanic {
@@ -148,7 +150,14 @@ func newDetMapIter(e *explorer, m map[value]value, h *hashmap) iter {
 		}
 	}
 	sort.SliceStable(it.keys, func(i, j int) bool { return keyLess(it.keys[i], it.keys[j]) })
-	it.all = e != nil && e.mapOrder
+	it.all = e != nil && e.mapOrder && len(it.keys) <= maxPermutedMap
+	if e != nil && e.mapOrder && len(it.keys) > 1 {
+		if it.all {
+			e.reach(fmt.Sprintf("maprange:permuted:%d", len(it.keys)))
+		} else {
+			e.reach("maprange:canonical-order(size>4)")
+		}
+	}
 	return it
 }
 
